@@ -279,6 +279,7 @@ func isolate(cs Case, seg int) *Case {
 }
 
 func runWithReruns(cs Case) caseOut {
+	cs = expand(cs)
 	o := caseOut{Res: runCase(cs)}
 	if len(o.Res.Fails) == 0 && o.Res.HarnessErr == "" {
 		return o
